@@ -155,7 +155,9 @@ def main():
                 u2.path = u.path[:-3] + '_rerun.rs'
                 with open(u2.path, 'w') as f2:
                     f2.write('\n'.join(lines))
-                rr = U.run_verus(u2, timeout=1500, extra=['--verify-root', '--verify-function', seg['fn'], '--rlimit', '100'])
+                # --multiple-errors 0: stop at the first failed obligation (looking for further ones is what exhausts the solver on a
+                # function as large as eval_node)
+                rr = U.run_verus(u2, timeout=1500, extra=['--verify-root', '--verify-function', seg['fn'], '--rlimit', '100'], multiple_errors='0')
                 checker_cmds.append(rr['cmd'])
                 defin = [d for d in rr['diags'] if d['owner'] == fnname and d['owner_kind'] == 'verify']
                 if defin:
